@@ -21,6 +21,7 @@ func checkC17(r *Report, p *Program) {
 	lockDiscipline(r, p, "R17.2", func(m string) bool { return true }, 4)
 	r17_3(r, p)
 	revisionCopies(r, p, "R17.1b")
+	keyCompleteness(r, p, "R17.5")
 }
 
 func cacheTaint(p *Program) *engine.Taint {
